@@ -34,7 +34,17 @@ class PropertyCheck:
 
     # ---- to be provided by subclasses --------------------------------------------------
     def corpus_cases(self) -> list:
-        return []
+        """minimised past failures, replayed first on every run (corpus/<pid>/*.json)"""
+        import json
+        out = []
+        d = common.VERIF / "corpus" / self.pid
+        if d.is_dir():
+            for f in sorted(d.glob("*.json")):
+                out.append(self.case_from_json(json.loads(f.read_text())))
+        return out
+
+    def case_from_json(self, j):
+        return j
 
     def build_cases(self, tier: str, rng: random.Random) -> list:
         raise NotImplementedError
